@@ -194,6 +194,14 @@ def constants_pred():
         bad.append("b / bn G1")
     if [int(c) for c in B.b2.coeffs] != [4, 4]:
         bad.append("bls b2")
+    if tuple(tuple(int(c) for c in x.coeffs) for x in N.G2) != O.BN_G2 or tuple(tuple(int(c) for c in x.coeffs) for x in ON.G2[:2]) != O.BN_G2 \
+            or [int(c) for c in ON.G2[2].coeffs] != [1, 0]:
+        bad.append("bn128 G2 != EIP-197 generator")
+    if tuple(tuple(int(c) for c in x.coeffs) for x in OB.G2[:2]) != O.BLS_G2:
+        bad.append("optimized bls G2")
+    for M_, nm in ((B, "bls12_381"), (N, "bn128")):
+        if tuple(tuple(int(c) for c in x.coeffs) for x in M_.G12) != tuple(tuple(int(c) for c in x.coeffs) for x in M_.twist(M_.G2)):
+            bad.append(nm + " G12 != twist(G2)")
     x = O.Fp2(*[int(c) for c in N.b2.coeffs], O.BN_P) * O.Fp2(9, 1, O.BN_P)
     if not x == O.Fp2(3, 0, O.BN_P):
         bad.append("bn b2 != 3/(9+i)")
